@@ -44,7 +44,7 @@ CertDims == [subject |-> {"cn", "full", "utf8", "empty"},
              nc      |-> {"none", "dnsP", "dnsE", "ipP", "emailP", "uriE", "allCrit"},
              pol     |-> {"none", "one", "two"},
              serial  |-> {"one", "small", "hi", "long20", "long20hi"},
-             time    |-> {"utc", "gen", "mixed"},
+             time    |-> {"utc", "gen", "mixed", "utc1950", "pre1950", "y2k", "far"},     \* both ends and the pivot of the UTCTime window 1950..2049
              aia     |-> {"none", "both"},
              crldp   |-> {"none", "one", "two"},
              extra   |-> {"none", "one"},
